@@ -17,6 +17,7 @@ for d in sorted(glob.glob(os.path.join(V, "seeded", "*"))):
             pass
     checks = "; ".join(c.replace(":", " ").replace("caught-with-input", "caught (failing input)").replace("caught-no-input", "caught (no-failing-input-found)")
                        for c in (m.get("checks") or []))
+    if m.get("obsolete"): checks = (checks + "; " if checks else "") + "now obsolete: " + m["obsolete"] + " (result shown is from the HEAD recorded in meta.json)"
     rows.append("| %s | %s | %s | %s | %s |" % (os.path.basename(d), m.get("property"), what, "yes" if m.get("confirmed") else "NO", checks or "pending"))
 table = ("\n\n| seeded change | breaks | touches | confirmed here (tests pass, demo fails with / passes without) | our checks on the changed tree |\n|---|---|---|---|---|\n"
          + "\n".join(rows) + "\n")
